@@ -17,6 +17,18 @@
 //! Family `server-scope` (server/src/server.rs is an anchor of C20): over HTTP against the real service, sequences
 //! rejected body -> well-formed body over entry names related by the additional symbols (- + * / .), on every worker
 //! thread, from one client and from several clients at once; every answer is judged by the value written in the body.
+//!
+//! Families added in wave 7 (all with written-out expectations, `judge_written`):
+//! * `special-names` — invocables Par1..Par6: `for` bodies that read `partial` (one and two iteration contexts), and a
+//!   `for` / a filter / quantifiers entered again from their own body through a recursive function (the same prepared
+//!   construct re-entered on one thread) and from many threads at once (they are "accumulating" invocables);
+//! * `overlapping-rules` — one decision table per hit policy (UNIQUE, ANY, FIRST, PRIORITY, RULE ORDER, OUTPUT ORDER,
+//!   COLLECT, COLLECT COUNT) whose rules overlap; inputs at and next to every threshold, each twice, so that a call of a
+//!   part matched by several rules follows a call of a part matched by one;
+//! * `invocable-names` — every tenth call (and two per overlapping table, whose names have a space) asks an invocable by
+//!   another spelling of its name: the answer must be null or the value of the invocable meant;
+//! * every evaluation made alone runs under a watchdog (`with_deadline`): a call that does not come back is reported as
+//!   a deadlock with that single call as the failing input.
 
 use crate::model::Model;
 use crate::report::{Kind, Report};
@@ -40,6 +52,198 @@ struct Invocable {
   kind: &'static str,
   /// registries read-locked on the way (abstract shape only; numbers name the locks)
   locks: Vec<u64>,
+  /// the written-out expectation of a call of this invocable, when there is one (independent of the implementation)
+  oracle: Oracle,
+}
+
+/// Written-out expectations (the specification side of the families `special-names` and `overlapping-rules`).
+#[derive(Clone)]
+enum Oracle {
+  None,
+  /// the answer is this text, whatever the input
+  Fixed(String),
+  /// `for i in 1..len return if i = 1 then n else partial[-1] + i`: item i is n + (2 + 3 + … + i)
+  PartialSums(u64),
+  /// `for i in 1..len return count(partial)`: 0, 1, 2, …
+  PartialCounts(u64),
+  /// the table of the family `overlapping-rules`: hit policy, thresholds t0 < t1 < t2
+  Overlap(&'static str, i128, i128, i128),
+}
+
+/// Hit policies of the family `overlapping-rules`: label, attributes of the decision table.
+const OVERLAP_POLICIES: [(&str, &str); 8] = [
+  ("UNIQUE", "hitPolicy=\"UNIQUE\""),
+  ("ANY", "hitPolicy=\"ANY\""),
+  ("FIRST", "hitPolicy=\"FIRST\""),
+  ("PRIORITY", "hitPolicy=\"PRIORITY\""),
+  ("RULE ORDER", "hitPolicy=\"RULE ORDER\""),
+  ("OUTPUT ORDER", "hitPolicy=\"OUTPUT ORDER\""),
+  ("COLLECT", "hitPolicy=\"COLLECT\""),
+  ("COUNT", "hitPolicy=\"COLLECT\" aggregation=\"COUNT\""),
+];
+
+/// A decimal numeral `[-]digits[.digits]` (possibly in parentheses) as (coefficient, scale), trailing zeros removed.
+fn dec_value(text: &str) -> Option<(i128, u32)> {
+  let t = text.trim().trim_start_matches('(').trim_end_matches(')').trim();
+  let (neg, t) = match t.strip_prefix('-') {
+    Some(r) => (true, r),
+    None => (false, t),
+  };
+  let (ip, fp) = match t.split_once('.') {
+    Some((a, b)) => (a, b),
+    None => (t, ""),
+  };
+  if ip.is_empty() || !ip.chars().all(|c| c.is_ascii_digit()) || !fp.chars().all(|c| c.is_ascii_digit()) || ip.len() + fp.len() > 30 {
+    return None;
+  }
+  let fp = fp.trim_end_matches('0');
+  let c: i128 = format!("{}{}", ip, fp).parse().ok()?;
+  Some((if neg { -c } else { c }, fp.len() as u32))
+}
+
+/// `a + k` for an integer k, normalised.
+fn dec_add_int(a: (i128, u32), k: i128) -> (i128, u32) {
+  let (mut c, mut s) = (a.0 + k * 10i128.pow(a.1), a.1);
+  while s > 0 && c % 10 == 0 {
+    c /= 10;
+    s -= 1;
+  }
+  (c, s)
+}
+
+/// The items of a canonical list text `[a, b, c]` of numbers, as normalised decimals.
+fn dec_list(text: &str) -> Option<Vec<(i128, u32)>> {
+  let inner = text.strip_prefix('[')?.strip_suffix(']')?;
+  if inner.is_empty() {
+    return Some(vec![]);
+  }
+  inner.split(", ").map(dec_value).collect()
+}
+
+/// Judges the answer `got` (canonical text) of a call with the number `n` by the written-out expectation of the
+/// invocable; `Err(expected)` when it is not what is written.
+fn judge_written(oracle: &Oracle, n: (i128, u32), got: &str) -> Result<(), String> {
+  match oracle {
+    Oracle::None => Ok(()),
+    Oracle::Fixed(t) => {
+      if got == t {
+        Ok(())
+      } else {
+        Err(t.clone())
+      }
+    }
+    Oracle::PartialSums(len) => {
+      let want: Vec<(i128, u32)> = (1..=*len as i128).map(|i| dec_add_int(n, i * (i + 1) / 2 - 1)).collect();
+      if dec_list(got).as_ref() == Some(&want) {
+        Ok(())
+      } else {
+        Err(format!("the list of n + (2 + ... + i) for i = 1..{}, n = {}e-{}", len, n.0, n.1))
+      }
+    }
+    Oracle::PartialCounts(len) => {
+      let want: Vec<(i128, u32)> = (0..*len as i128).map(|i| (i, 0)).collect();
+      if dec_list(got).as_ref() == Some(&want) {
+        Ok(())
+      } else {
+        Err(format!("[0, 1, ..., {}]", len - 1))
+      }
+    }
+    Oracle::Overlap(hp, t0, t1, t2) => {
+      // compare n with an integer threshold: n - t as a sign
+      let cmp = |t: i128| (n.0 - t * 10i128.pow(n.1)).signum();
+      let matched: Vec<&str> = [
+        (cmp(*t1) <= 0, "standard"),
+        (cmp(*t0) >= 0 && cmp(*t2) <= 0, "reduced"),
+        (cmp(*t2) > 0, "individual"),
+        (cmp(*t1) > 0 && cmp(*t2) <= 0, "reduced"),
+      ]
+      .iter()
+      .filter(|(m, _)| *m)
+      .map(|(_, o)| *o)
+      .collect();
+      let q = |s: &str| format!("{:?}", s);
+      let list = |v: &[&str]| format!("[{}]", v.iter().map(|s| q(s)).collect::<Vec<_>>().join(", "));
+      let priority = |s: &str| ["individual", "reduced", "standard"].iter().position(|p| *p == s).unwrap_or(9);
+      let want = match *hp {
+        "UNIQUE" => {
+          if matched.len() == 1 {
+            q(matched[0])
+          } else {
+            "null".to_string()
+          }
+        }
+        "ANY" => {
+          if !matched.is_empty() && matched.iter().all(|m| *m == matched[0]) {
+            q(matched[0])
+          } else {
+            "null".to_string()
+          }
+        }
+        "FIRST" => matched.first().map(|m| q(m)).unwrap_or_else(|| "null".into()),
+        "PRIORITY" => matched.iter().min_by_key(|m| priority(m)).map(|m| q(m)).unwrap_or_else(|| "null".into()),
+        "RULE ORDER" | "COLLECT" => list(&matched),
+        "OUTPUT ORDER" => {
+          let mut v = matched.clone();
+          v.sort_by_key(|m| priority(m));
+          list(&v)
+        }
+        _ => format!("{}", matched.len()),
+      };
+      if got == want {
+        Ok(())
+      } else {
+        Err(want)
+      }
+    }
+  }
+}
+
+/// Runs `f` on a thread of its own and waits at most `secs` seconds for it: `None` when it does not come back
+/// (the thread is left behind; the caller ends the run).
+fn with_deadline<T: Send + 'static>(secs: u64, f: impl FnOnce() -> T + Send + 'static) -> Option<T> {
+  let (tx, rx) = mpsc::channel::<T>();
+  let h = std::thread::Builder::new().stack_size(8 << 20).spawn(move || {
+    let _ = tx.send(f());
+  });
+  match h {
+    Ok(h) => match rx.recv_timeout(Duration::from_secs(secs)) {
+      Ok(v) => {
+        let _ = h.join();
+        Some(v)
+      }
+      Err(_) => None,
+    },
+    Err(_) => None,
+  }
+}
+
+/// Other spellings of the name of an invocable (family `invocable-names`): white space added in every place, other
+/// white space characters, other case, a prefix, a longer name, the empty name.
+fn name_variants(name: &str) -> Vec<String> {
+  let mut v = vec![
+    format!(" {}", name),
+    format!("{} ", name),
+    format!("  {}  ", name),
+    format!("\t{}", name),
+    format!("{}\n", name),
+    format!("\u{a0}{}", name),
+    name.to_lowercase(),
+    name.to_uppercase(),
+    format!("{}x", name),
+    name.chars().take(name.chars().count().saturating_sub(1)).collect(),
+    String::new(),
+    " ".to_string(),
+  ];
+  if name.contains(' ') {
+    v.push(name.replace(' ', "  "));
+    v.push(name.replace(' ', "\t"));
+    v.push(name.replace(' ', " \t "));
+    v.push(name.replace(' ', "\u{a0}"));
+    v.push(name.replace(' ', ""));
+    v.push(name.replace(' ', "_"));
+  }
+  v.retain(|x| x != name);
+  v
 }
 
 fn xml_escape(s: &str) -> String {
@@ -82,14 +286,14 @@ fn generate_model(rng: &mut Rng) -> (String, Vec<Invocable>) {
     &[("input", "_n")],
     &format!("sum(for i in 1..{a} return (i * i + n) / {b}) + sqrt(n * n + {c}) - decimal(n / {b}, 3) + floor(n) ** 2", a = a, b = b, c = c),
   ));
-  inv.push(Invocable { name: "Num1".into(), kind: "numeric", locks: dec_locks.clone() });
+  inv.push(Invocable { name: "Num1".into(), kind: "numeric", locks: dec_locks.clone(), oracle: Oracle::None });
   x.push_str(&decision(
     "Num2",
     "number",
     &[("input", "_n")],
     &format!("mean(for i in 1..{a} return i * n) + max([n, {b}, {c}]) * modulo(n + {a}, {b} + 1) + abs(n - {c}) + exp(1) + log({b} + 1)", a = 10 + rng.below(40), b = b, c = c),
   ));
-  inv.push(Invocable { name: "Num2".into(), kind: "numeric", locks: dec_locks.clone() });
+  inv.push(Invocable { name: "Num2".into(), kind: "numeric", locks: dec_locks.clone(), oracle: Oracle::None });
   // rounding to integers, many times per call: floor / ceiling / round-to-scale / modulo / odd of numbers with a
   // fraction (each rounds with a mode of its own) ...
   let (ia, ib) = (30 + rng.below(40), 20 + rng.below(30));
@@ -102,7 +306,7 @@ fn generate_model(rng: &mut Rng) -> (String, Vec<Invocable>) {
       a = ia
     ),
   ));
-  inv.push(Invocable { name: "Int1".into(), kind: "integral", locks: dec_locks.clone() });
+  inv.push(Invocable { name: "Int1".into(), kind: "integral", locks: dec_locks.clone(), oracle: Oracle::None });
   // ... while another call computes results that lie exactly half-way (or nearly) between two 34-digit numbers, and
   // inexact quotients: the results that depend on the rounding mode of the decimal context, which is per call
   x.push_str(&decision(
@@ -114,7 +318,7 @@ fn generate_model(rng: &mut Rng) -> (String, Vec<Invocable>) {
       b = ib
     ),
   ));
-  inv.push(Invocable { name: "Tie1".into(), kind: "tie", locks: dec_locks.clone() });
+  inv.push(Invocable { name: "Tie1".into(), kind: "tie", locks: dec_locks.clone(), oracle: Oracle::None });
   // temporal
   let (days, hours, months) = (1 + rng.below(40), 1 + rng.below(23), 1 + rng.below(30));
   x.push_str(&decision(
@@ -129,7 +333,7 @@ fn generate_model(rng: &mut Rng) -> (String, Vec<Invocable>) {
       tz = rng.below(9)
     ),
   ));
-  inv.push(Invocable { name: "Tmp1".into(), kind: "temporal", locks: dec_locks.clone() });
+  inv.push(Invocable { name: "Tmp1".into(), kind: "temporal", locks: dec_locks.clone(), oracle: Oracle::None });
   // an evaluation that can fail: 02:30 does not exist in Warsaw on the day daylight saving time begins; on the
   // pinned tree the subtraction panics for such an input (C15 finding). A failed call must not spoil later calls
   // (no lock left poisoned): calls with such inputs are part of every call table, their sequential outcome
@@ -140,7 +344,7 @@ fn generate_model(rng: &mut Rng) -> (String, Vec<Invocable>) {
     &[("input", "_d")],
     "string(date and time(d + \"T12:00:00@Europe/Warsaw\") - date and time(d + \"T02:30:00@Europe/Warsaw\"))",
   ));
-  inv.push(Invocable { name: "Gap1".into(), kind: "failing", locks: dec_locks.clone() });
+  inv.push(Invocable { name: "Gap1".into(), kind: "failing", locks: dec_locks.clone(), oracle: Oracle::None });
   // regular expressions
   let rx = *rng.pick(&["^[a-c]+[0-9]*$", "a+b*", "(ab)+", "^.{3,}$", "[0-9]{2}", "b.a"]);
   x.push_str(&decision(
@@ -152,7 +356,7 @@ fn generate_model(rng: &mut Rng) -> (String, Vec<Invocable>) {
       rx = rx
     ),
   ));
-  inv.push(Invocable { name: "Rgx1".into(), kind: "regex", locks: dec_locks.clone() });
+  inv.push(Invocable { name: "Rgx1".into(), kind: "regex", locks: dec_locks.clone(), oracle: Oracle::None });
   // decision table
   let (t1, t2, t3) = (5 + rng.below(10), 20 + rng.below(20), 50 + rng.below(40));
   let hp = *rng.pick(&["UNIQUE", "FIRST", "ANY", "PRIORITY"]);
@@ -179,7 +383,7 @@ fn generate_model(rng: &mut Rng) -> (String, Vec<Invocable>) {
     hp = hp,
     rules = rules
   ));
-  inv.push(Invocable { name: "Tbl1".into(), kind: "table", locks: dec_locks.clone() });
+  inv.push(Invocable { name: "Tbl1".into(), kind: "table", locks: dec_locks.clone(), oracle: Oracle::None });
   // collect table with aggregation
   let mut rules2 = String::new();
   for i in 0..12u64 {
@@ -194,7 +398,7 @@ fn generate_model(rng: &mut Rng) -> (String, Vec<Invocable>) {
     "<decision name=\"Tbl2\" id=\"_Tbl2\"><variable name=\"Tbl2\" typeRef=\"number\"/><informationRequirement><requiredInput href=\"#_n\"/></informationRequirement><decisionTable hitPolicy=\"COLLECT\" aggregation=\"SUM\" outputLabel=\"Tbl2\"><input id=\"_j1\" label=\"n\"><inputExpression typeRef=\"number\"><text>n</text></inputExpression></input><output id=\"_p1\" name=\"Tbl2\" typeRef=\"number\"/>{}</decisionTable></decision>\n",
     rules2
   ));
-  inv.push(Invocable { name: "Tbl2".into(), kind: "table", locks: dec_locks.clone() });
+  inv.push(Invocable { name: "Tbl2".into(), kind: "table", locks: dec_locks.clone(), oracle: Oracle::None });
   // a table whose default output entry and allowed output values are expressions over the call's input
   // (they are evaluated per call; a value kept from one call would show in the next)
   x.push_str(&format!(
@@ -203,7 +407,7 @@ fn generate_model(rng: &mut Rng) -> (String, Vec<Invocable>) {
     t = 5 + rng.below(10),
     u = 60 + rng.below(30)
   ));
-  inv.push(Invocable { name: "Tbl3".into(), kind: "table", locks: dec_locks.clone() });
+  inv.push(Invocable { name: "Tbl3".into(), kind: "table", locks: dec_locks.clone(), oracle: Oracle::None });
   // deep recursion through a function bound in a context: every call nests its own invocations only
   x.push_str(&decision(
     "Rec1",
@@ -211,7 +415,7 @@ fn generate_model(rng: &mut Rng) -> (String, Vec<Invocable>) {
     &[("input", "_n")],
     &format!("{{f: function(k) if k <= 0 then 0 else 1 + f(k - 1), r: f({} + floor(abs(n)))}}.r", 40 + rng.below(40)),
   ));
-  inv.push(Invocable { name: "Rec1".into(), kind: "recursive", locks: dec_locks.clone() });
+  inv.push(Invocable { name: "Rec1".into(), kind: "recursive", locks: dec_locks.clone(), oracle: Oracle::None });
   // knowledge model and a chain of required decisions (nested read acquisitions)
   x.push_str(&format!(
     "<businessKnowledgeModel name=\"Bkm1\" id=\"_Bkm1\"><variable name=\"Bkm1\"/><encapsulatedLogic><formalParameter name=\"p\" typeRef=\"number\"/><formalParameter name=\"q\" typeRef=\"number\"/><literalExpression><text>{}</text></literalExpression></encapsulatedLogic></businessKnowledgeModel>\n",
@@ -233,8 +437,8 @@ fn generate_model(rng: &mut Rng) -> (String, Vec<Invocable>) {
   }
   let mut l = vec![0];
   l.extend(chain_locks);
-  inv.push(Invocable { name: format!("Chn{}", chain), kind: "chain", locks: l.clone() });
-  inv.push(Invocable { name: "Bkm1".into(), kind: "knowledge", locks: vec![0, 2] });
+  inv.push(Invocable { name: format!("Chn{}", chain), kind: "chain", locks: l.clone(), oracle: Oracle::None });
+  inv.push(Invocable { name: "Bkm1".into(), kind: "knowledge", locks: vec![0, 2], oracle: Oracle::None });
   // decision service over the chain
   x.push_str(&format!(
     "<decisionService name=\"Svc1\" id=\"_Svc1\"><variable name=\"Svc1\"/><outputDecision href=\"#_Chn{}\"/><outputDecision href=\"#_Tbl1\"/><inputData href=\"#_n\"/><inputData href=\"#_s\"/></decisionService>\n",
@@ -242,7 +446,7 @@ fn generate_model(rng: &mut Rng) -> (String, Vec<Invocable>) {
   ));
   let mut sl = vec![0, 3];
   sl.extend(l.iter().skip(1));
-  inv.push(Invocable { name: "Svc1".into(), kind: "service", locks: sl });
+  inv.push(Invocable { name: "Svc1".into(), kind: "service", locks: sl, oracle: Oracle::None });
   // ---- constructs that ACCUMULATE a result while they evaluate (rows of a boxed relation, entries of a boxed
   // context, bindings of a boxed invocation, the items a for loop / filter / sort / quantifier / collect table
   // gathers): every one of them depends on the call's input in every part, so that a buffer shared between two
@@ -276,14 +480,14 @@ fn generate_model(rng: &mut Rng) -> (String, Vec<Invocable>) {
   // boxed relation as the logic of a decision
   let rel_rows = 8 + rng.below(10);
   x.push_str(&boxed("Rel1", &[("input", "_n")], &relation(rel_rows, rng, "n")));
-  inv.push(Invocable { name: "Rel1".into(), kind: "accumulating", locks: acc_locks.clone() });
+  inv.push(Invocable { name: "Rel1".into(), kind: "accumulating", locks: acc_locks.clone(), oracle: Oracle::None });
   // boxed relation as the logic of a knowledge model, reached through a decision (and filtered there)
   x.push_str(&format!(
     "<businessKnowledgeModel name=\"Bkm2\" id=\"_Bkm2\"><variable name=\"Bkm2\"/><encapsulatedLogic><formalParameter name=\"p\"/>{}</encapsulatedLogic></businessKnowledgeModel>\n",
     relation(6 + rng.below(8), rng, "p")
   ));
   x.push_str(&decision("Rel2", "", &[("input", "_n"), ("knowledge", "_Bkm2")], "{all: Bkm2(n), some: Bkm2(n + 1)[idx > (n + 1) * 1000 + 2], n: count(Bkm2(n))}"));
-  inv.push(Invocable { name: "Rel2".into(), kind: "accumulating", locks: vec![0, 2, 3, 1, 4, 5, 2] });
+  inv.push(Invocable { name: "Rel2".into(), kind: "accumulating", locks: vec![0, 2, 3, 1, 4, 5, 2], oracle: Oracle::None });
   // boxed context with many entries, each using the one before; with and without a result entry
   let entries = 10 + rng.below(10);
   let mut ctx = String::from("<context>");
@@ -292,42 +496,42 @@ fn generate_model(rng: &mut Rng) -> (String, Vec<Invocable>) {
     ctx.push_str(&format!("<contextEntry><variable name=\"e{}\"/>{}</contextEntry>", i, lit(&text)));
   }
   x.push_str(&boxed("Ctx1", &[("input", "_n")], &format!("{}</context>", ctx)));
-  inv.push(Invocable { name: "Ctx1".into(), kind: "accumulating", locks: acc_locks.clone() });
+  inv.push(Invocable { name: "Ctx1".into(), kind: "accumulating", locks: acc_locks.clone(), oracle: Oracle::None });
   let all: Vec<String> = (0..entries).map(|i| format!("e{}", i)).collect();
   x.push_str(&boxed("Ctx2", &[("input", "_n")], &format!("{}<contextEntry>{}</contextEntry></context>", ctx, lit(&format!("[{}]", all.join(", "))))));
-  inv.push(Invocable { name: "Ctx2".into(), kind: "accumulating", locks: acc_locks.clone() });
+  inv.push(Invocable { name: "Ctx2".into(), kind: "accumulating", locks: acc_locks.clone(), oracle: Oracle::None });
   // boxed invocation of a knowledge model with bindings
   x.push_str(&boxed(
     "Inv1",
     &[("input", "_n"), ("knowledge", "_Bkm1")],
     &format!("<invocation>{}<binding><parameter name=\"p\"/>{}</binding><binding><parameter name=\"q\"/>{}</binding></invocation>", lit("Bkm1"), lit("n + 1"), lit(&format!("floor(n) + {}", 1 + rng.below(5)))),
   ));
-  inv.push(Invocable { name: "Inv1".into(), kind: "accumulating", locks: vec![0, 2, 3, 1, 4, 5, 2] });
+  inv.push(Invocable { name: "Inv1".into(), kind: "accumulating", locks: vec![0, 2, 3, 1, 4, 5, 2], oracle: Oracle::None });
   // a literal list with many items, for loops building long lists, a filter, a sort, quantifiers and the list built-ins
   let items: Vec<String> = (0..(20 + rng.below(30))).map(|i| format!("n + {}", i)).collect();
   x.push_str(&decision("Lst1", "", &[("input", "_n")], &format!("[{}]", items.join(", "))));
-  inv.push(Invocable { name: "Lst1".into(), kind: "accumulating", locks: acc_locks.clone() });
+  inv.push(Invocable { name: "Lst1".into(), kind: "accumulating", locks: acc_locks.clone(), oracle: Oracle::None });
   x.push_str(&decision(
     "For1",
     "",
     &[("input", "_n")],
     &format!("[(for i in 1..{a} return i * n + {c}), (for i in 1..{b}, j in 1..{b} return i * j + n), (for i in [n, n + 1, n + 2], j in [1, 2] return [i, j])]", a = 100 + rng.below(100), b = 6 + rng.below(8), c = rng.below(9)),
   ));
-  inv.push(Invocable { name: "For1".into(), kind: "accumulating", locks: acc_locks.clone() });
+  inv.push(Invocable { name: "For1".into(), kind: "accumulating", locks: acc_locks.clone(), oracle: Oracle::None });
   x.push_str(&decision(
     "Flt1",
     "",
     &[("input", "_n")],
     &format!("[(for i in 1..{a} return i + n)[item > n + {h}], (for i in 1..{b} return {{a: i + n, b: i}})[b > {k}], (for i in 1..{b} return i + n)[{k}]]", a = 100 + rng.below(100), h = 30 + rng.below(40), b = 20 + rng.below(20), k = 3 + rng.below(9)),
   ));
-  inv.push(Invocable { name: "Flt1".into(), kind: "accumulating", locks: acc_locks.clone() });
+  inv.push(Invocable { name: "Flt1".into(), kind: "accumulating", locks: acc_locks.clone(), oracle: Oracle::None });
   x.push_str(&decision(
     "Srt1",
     "",
     &[("input", "_n")],
     &format!("[sort((for i in 1..{a} return modulo(i * 37 + floor(n), 101)), function(a, b) a < b), sort((for i in 1..{b} return modulo(i * 53 + floor(n), 97)), function(a, b) a > b)]", a = 40 + rng.below(40), b = 20 + rng.below(20)),
   ));
-  inv.push(Invocable { name: "Srt1".into(), kind: "accumulating", locks: acc_locks.clone() });
+  inv.push(Invocable { name: "Srt1".into(), kind: "accumulating", locks: acc_locks.clone(), oracle: Oracle::None });
   x.push_str(&decision(
     "Acc1",
     "",
@@ -339,7 +543,7 @@ fn generate_model(rng: &mut Rng) -> (String, Vec<Invocable>) {
       t = 500 + rng.below(2000)
     ),
   ));
-  inv.push(Invocable { name: "Acc1".into(), kind: "accumulating", locks: acc_locks.clone() });
+  inv.push(Invocable { name: "Acc1".into(), kind: "accumulating", locks: acc_locks.clone(), oracle: Oracle::None });
   // tables that collect: a list of outputs, and a list of output contexts in rule order
   let mut rules3 = String::new();
   let mut rules4 = String::new();
@@ -357,12 +561,79 @@ fn generate_model(rng: &mut Rng) -> (String, Vec<Invocable>) {
     "<decision name=\"Col1\" id=\"_Col1\"><variable name=\"Col1\"/><informationRequirement><requiredInput href=\"#_n\"/></informationRequirement><decisionTable hitPolicy=\"COLLECT\" outputLabel=\"Col1\"><input id=\"_l1\" label=\"n\"><inputExpression typeRef=\"number\"><text>n</text></inputExpression></input><output id=\"_m1\" name=\"Col1\"/>{}</decisionTable></decision>\n",
     rules3
   ));
-  inv.push(Invocable { name: "Col1".into(), kind: "accumulating", locks: acc_locks.clone() });
+  inv.push(Invocable { name: "Col1".into(), kind: "accumulating", locks: acc_locks.clone(), oracle: Oracle::None });
   x.push_str(&format!(
     "<decision name=\"Col2\" id=\"_Col2\"><variable name=\"Col2\"/><informationRequirement><requiredInput href=\"#_n\"/></informationRequirement><decisionTable hitPolicy=\"RULE ORDER\" outputLabel=\"Col2\"><input id=\"_l2\" label=\"n\"><inputExpression typeRef=\"number\"><text>n</text></inputExpression></input><output id=\"_m2\" name=\"amount\"/><output id=\"_m3\" name=\"tag\"/>{}</decisionTable></decision>\n",
     rules4
   ));
-  inv.push(Invocable { name: "Col2".into(), kind: "accumulating", locks: acc_locks.clone() });
+  inv.push(Invocable { name: "Col2".into(), kind: "accumulating", locks: acc_locks.clone(), oracle: Oracle::None });
+  // ---- family `special-names`: the names an iteration construct binds by itself (`partial` of a for expression,
+  // `item` of a filter, the variables of quantifiers) are read by the body, in every iteration, also when the SAME
+  // construct is entered again before it has finished (by recursion on one thread, by another thread). The
+  // expectations are written out.
+  let pa = 30 + rng.below(90);
+  x.push_str(&decision("Par1", "", &[("input", "_n")], &format!("for i in 1..{} return if i = 1 then n else partial[-1] + i", pa)));
+  inv.push(Invocable { name: "Par1".into(), kind: "accumulating", locks: acc_locks.clone(), oracle: Oracle::PartialSums(pa) });
+  let pb = 20 + rng.below(60);
+  x.push_str(&decision("Par2", "", &[("input", "_n")], &format!("for i in 1..{} return count(partial) + 0 * n", pb)));
+  inv.push(Invocable { name: "Par2".into(), kind: "accumulating", locks: acc_locks.clone(), oracle: Oracle::PartialCounts(pb) });
+  // two iteration contexts: partial is the flat list of all results so far
+  let pc = 3 + rng.below(6);
+  x.push_str(&decision("Par3", "", &[("input", "_n")], &format!("for i in 1..{}, j in [n, n + 1, n + 2] return count(partial)", pc)));
+  inv.push(Invocable { name: "Par3".into(), kind: "accumulating", locks: acc_locks.clone(), oracle: Oracle::PartialCounts(pc * 3) });
+  // the same for expression entered again from its own body (recursion): f(0) = [n]; f(1) = [0 + 1, 1 + 1]; f(k) = [0 + 2, 1 + 2]
+  let depth = 3 + rng.below(4);
+  x.push_str(&decision(
+    "Par4",
+    "",
+    &[("input", "_n")],
+    &format!("{{f: function(k) if k <= 0 then [n] else for i in 1..2 return count(partial) + count(f(k - 1)), r: f({})}}.r", depth),
+  ));
+  inv.push(Invocable { name: "Par4".into(), kind: "accumulating", locks: acc_locks.clone(), oracle: Oracle::Fixed("[2, 3]".into()) });
+  // the same filter entered again from its own predicate: `item` is the item of the innermost filter
+  x.push_str(&decision(
+    "Par5",
+    "",
+    &[("input", "_n")],
+    &format!("{{g: function(k) if k <= 0 then [1, 2, 3] else g(k - 1)[item > count(g(k - 1)[item > 5])], r: g({})}}.r", 2 + rng.below(3)),
+  ));
+  inv.push(Invocable { name: "Par5".into(), kind: "accumulating", locks: acc_locks.clone(), oracle: Oracle::Fixed("[1, 2, 3]".into()) });
+  // the same quantifiers entered again from their own condition
+  x.push_str(&decision(
+    "Par6",
+    "",
+    &[("input", "_n")],
+    &format!("{{h: function(k) if k <= 0 then [true] else [every i in [1, 2] satisfies (some j in [i, k] satisfies (j = k and h(k - 1)[1]))], r: h({})}}.r", 2 + rng.below(3)),
+  ));
+  inv.push(Invocable { name: "Par6".into(), kind: "accumulating", locks: acc_locks.clone(), oracle: Oracle::Fixed("[true]".into()) });
+  // ---- family `overlapping-rules`: one table per hit policy whose rules OVERLAP (and whose name has a space); the
+  // inputs fall into the parts matched by one rule and into the parts matched by several. Rules:
+  //   r0: <= t1 -> "standard"   r1: [t0..t2] -> "reduced"   r2: > t2 -> "individual"   r3: (t1..t2] -> "reduced"
+  // so  n < t0: {r0};  t0 <= n <= t1: {r0, r1};  t1 < n <= t2: {r1, r3};  n > t2: {r2}
+  let (t0, t1, t2) = (10 + rng.below(20), 35 + rng.below(20), 60 + rng.below(25));
+  for (hp, attr) in OVERLAP_POLICIES {
+    let name = format!("Ovl {}", hp);
+    let id = name.replace(' ', "_");
+    let entries = [(format!("<= {}", t1), "standard"), (format!("[{}..{}]", t0, t2), "reduced"), (format!("> {}", t2), "individual"), (format!("({}..{}]", t1, t2), "reduced")];
+    let mut rules = String::new();
+    for (i, (test, out)) in entries.iter().enumerate() {
+      rules.push_str(&format!(
+        "<rule id=\"_{}_r{}\"><inputEntry><text>{}</text></inputEntry><outputEntry><text>\"{}\"</text></outputEntry></rule>",
+        id,
+        i,
+        xml_escape(test),
+        out
+      ));
+    }
+    x.push_str(&format!(
+      "<decision name=\"{name}\" id=\"_{id}\"><variable name=\"{name}\"/><informationRequirement><requiredInput href=\"#_n\"/></informationRequirement><decisionTable {attr} outputLabel=\"{name}\"><input id=\"_{id}_i\" label=\"n\"><inputExpression typeRef=\"number\"><text>n</text></inputExpression></input><output id=\"_{id}_o\" name=\"{name}\"><outputValues><text>\"individual\", \"reduced\", \"standard\"</text></outputValues></output>{rules}</decisionTable></decision>\n",
+      name = name,
+      id = id,
+      attr = attr,
+      rules = rules
+    ));
+    inv.push(Invocable { name, kind: "overlapping", locks: dec_locks.clone(), oracle: Oracle::Overlap(hp, t0 as i128, t1 as i128, t2 as i128) });
+  }
   let xml = format!(
     "<?xml version=\"1.0\" encoding=\"UTF-8\"?>\n<definitions namespace=\"https://verif/c20\" name=\"c20\" id=\"_c20\" xmlns=\"https://www.omg.org/spec/DMN/20191111/MODEL/\">\n{}</definitions>",
     x
@@ -395,8 +666,16 @@ fn gen_input(rng: &mut Rng) -> String {
   format!("{{n: {}, s: \"{}\", d: \"{}\", p: {}, q: {}}}", n, s, d, rng.below(20), rng.below(20))
 }
 
+/// The number bound to `n` in an input text of `gen_input`.
+fn n_of(input_text: &str) -> Option<(i128, u32)> {
+  let rest = input_text.strip_prefix("{n: ")?;
+  dec_value(&rest[..rest.find(", s:")?])
+}
+
 struct Call {
   invocable: usize,
+  /// the name the invocable is asked by (the name of the invocable, or another spelling of it)
+  name: String,
   input_text: String,
   input: FeelContext,
   expected: String,
@@ -454,7 +733,7 @@ pub fn run(cfg: &Cfg) -> Report {
     // call must leave no lock poisoned, whatever lock the evaluation path holds while it runs
     me.verif_add_failing_decision("Boom");
     let mut invocables = invocables;
-    invocables.push(Invocable { name: "Boom".into(), kind: "panicking", locks: vec![0, 1] });
+    invocables.push(Invocable { name: "Boom".into(), kind: "panicking", locks: vec![0, 1], oracle: Oracle::None });
     // the table of calls with their sequential results
     let mut calls: Vec<Call> = vec![];
     let n_calls = 60 + rng.below(40) as usize;
@@ -463,6 +742,8 @@ pub fn run(cfg: &Cfg) -> Report {
     let gap1 = invocables.iter().position(|i| i.name == "Gap1");
     let int1 = invocables.iter().position(|i| i.name == "Int1");
     let tie1 = invocables.iter().position(|i| i.name == "Tie1");
+    let overlapping: Vec<usize> = invocables.iter().enumerate().filter(|(_, i)| i.kind == "overlapping").map(|(k, _)| k).collect();
+    let mut todo: Vec<(usize, String, String)> = vec![];
     for ci in 0..n_calls {
       let mut invocable = rng.below(invocables.len() as u64) as usize;
       let mut input_text = gen_input(&mut rng);
@@ -485,22 +766,92 @@ pub fn run(cfg: &Cfg) -> Report {
         invocable = g;
         input_text = format!("{{n: 1, s: \"a\", d: \"{}\", p: 1, q: 1}}", rng.pick(&["2020-03-29", "2021-03-28", "2019-03-31"]));
       }
+      let mut name = invocables[invocable].name.clone();
+      // family `invocable-names`: the invocable asked by another spelling of its name
+      if ci % 10 == 0 {
+        name = rng.pick(&name_variants(&name)).clone();
+      }
+      todo.push((invocable, name, input_text));
+    }
+    // family `overlapping-rules`: every table with inputs in every part (matched by one rule, by several), at and next
+    // to every threshold, twice each (so that a call follows a call of another part), then the names of these tables
+    // (they have a space) in every other spelling
+    for &k in &overlapping {
+      if let Oracle::Overlap(_, t0, t1, t2) = invocables[k].oracle {
+        let mut ns: Vec<String> = vec![
+          format!("{}", t0 - 1 - rng.below(9) as i128),
+          format!("{}", t0),
+          format!("{}.{}", t0 + rng.below((t1 - t0) as u64) as i128, 1 + rng.below(9)),
+          format!("{}", t1),
+          format!("{}.5", t1),
+          format!("{}", t1 + 1 + rng.below((t2 - t1 - 1) as u64) as i128),
+          format!("{}", t2),
+          format!("{}.001", t2),
+          format!("{}", t2 + 1 + rng.below(30) as i128),
+          format!("{}", t0 - 1),
+        ];
+        // orders in which a part matched by one rule comes right before a part matched by several, for every rule
+        let k0 = rng.below(ns.len() as u64) as usize;
+        ns.rotate_left(k0);
+        if rng.chance(1, 2) {
+          ns.reverse();
+        }
+        let again: Vec<String> = ns.iter().rev().cloned().collect();
+        ns.extend(again);
+        for n in ns {
+          todo.push((k, invocables[k].name.clone(), format!("{{n: {}, s: \"ab\", d: \"2001-02-03\", p: 1, q: 2}}", n)));
+        }
+        let variants = name_variants(&invocables[k].name);
+        for _ in 0..2 {
+          todo.push((k, rng.pick(&variants).clone(), gen_input(&mut rng)));
+        }
+      }
+    }
+    for (invocable, name, input_text) in todo {
       let input = match dmntk_feel_evaluator::evaluate_context(&Scope::default(), &input_text) {
         Ok(c) => c,
         Err(_) => continue,
       };
-      let name = invocables[invocable].name.clone();
+      let exact = invocables[invocable].name.clone();
       // "the same value as that call made alone": the first expectation comes from an evaluator of its own,
-      // built for this call only (except for the hook's panicking decision, which exists on `me` alone)
-      let first = if name == "Boom" {
-        guarded(|| canon(&me.evaluate_invocable(&name, &input)))
-      } else {
-        guarded(|| match dmntk_model::parse(&xml).ok().and_then(|d| ModelEvaluator::new(&d).ok()) {
-          Some(fresh) => canon(&fresh.evaluate_invocable(&name, &input)),
-          None => "no-evaluator".to_string(),
+      // built for this call only (except for the hook's panicking decision, which exists on `me` alone).
+      // Every evaluation made here runs under a watchdog: a call that does not come back is a deadlock.
+      let first = {
+        let (me, xml, name, input, boom) = (Arc::clone(&me), xml.clone(), name.clone(), input.clone(), exact == "Boom");
+        with_deadline(20, move || {
+          if boom {
+            guarded(|| canon(&me.evaluate_invocable(&name, &input)))
+          } else {
+            guarded(|| match dmntk_model::parse(&xml).ok().and_then(|d| ModelEvaluator::new(&d).ok()) {
+              Some(fresh) => canon(&fresh.evaluate_invocable(&name, &input)),
+              None => "no-evaluator".to_string(),
+            })
+          }
         })
       };
-      let second = guarded(|| canon(&me.evaluate_invocable(&name, &input)));
+      let second = match first {
+        None => None,
+        Some(_) => {
+          let (me, name, input) = (Arc::clone(&me), name.clone(), input.clone());
+          with_deadline(20, move || guarded(|| canon(&me.evaluate_invocable(&name, &input))))
+        }
+      };
+      let (first, second) = match (first, second) {
+        (Some(a), Some(b)) => (a, b),
+        (a, _) => {
+          rep.disagree(
+            Kind::ImplVsSpec,
+            "no_blocking",
+            "deadlock: an evaluation made alone does not come back within 20 s",
+            &format!("seed {} evaluate_invocable({:?}, {}) {}", cfg.seed, name, input_text, if a.is_none() { "on an evaluator of its own, nothing else running" } else { "on the shared evaluator, nothing else running" }),
+            "no answer",
+            "a value (null when there is no invocable of that name)",
+          );
+          rep.case(&format!("alone|{:?}|{}", name, input_text), true);
+          hung = true;
+          break 'models;
+        }
+      };
       let expected = match (first, second) {
         (Ok(a), Ok(b)) if a == b => a,
         (Err(_), Err(_)) => "panic".to_string(),
@@ -509,15 +860,62 @@ pub fn run(cfg: &Cfg) -> Report {
             Kind::ImplVsSpec,
             "sequential",
             "an evaluation on the shared evaluator differs from the same call made alone on an evaluator of its own",
-            &format!("{} {}", name, input_text),
-            &format!("{:?}", a),
+            &format!("{:?} {}", name, input_text),
             &format!("{:?}", b),
+            &format!("{:?}", a),
           );
           continue;
         }
       };
+      // the written-out expectation of the call (families `special-names`, `overlapping-rules`)
+      if name == exact {
+        if let Some(n) = n_of(&input_text) {
+          if let Err(want) = judge_written(&invocables[invocable].oracle, n, &expected) {
+            let family = if invocables[invocable].kind == "overlapping" { "overlapping-rules" } else { "special-names" };
+            rep.disagree(
+              Kind::ImplVsSpec,
+              family,
+              &format!("{}: an evaluation made alone does not return the written-out value", family),
+              &format!("{:?} {} ;; decision logic: see the model of the run (generate_model: {})", name, input_text, exact),
+              &expected,
+              &want,
+            );
+            continue;
+          }
+          if !matches!(invocables[invocable].oracle, Oracle::None) {
+            rep.hit(&format!("written-oracle:{}:as-written", invocables[invocable].kind));
+          }
+        }
+      } else {
+        // another spelling of the name: no invocable of that name (null), or the invocable meant — nothing else
+        let meant = {
+          let (xml, exact, input) = (xml.clone(), exact.clone(), input.clone());
+          with_deadline(20, move || {
+            guarded(|| match dmntk_model::parse(&xml).ok().and_then(|d| ModelEvaluator::new(&d).ok()) {
+              Some(fresh) => canon(&fresh.evaluate_invocable(&exact, &input)),
+              None => "no-evaluator".to_string(),
+            })
+          })
+        };
+        let meant = match meant {
+          Some(Ok(v)) => v,
+          _ => "panic".to_string(),
+        };
+        rep.hit(if expected == "null" { "invocable-names:not-found" } else { "invocable-names:found" });
+        if expected != "null" && expected != meant {
+          rep.disagree(
+            Kind::ImplVsSpec,
+            "invocable-names",
+            "invocable-names: a name that is not the name of an invocable is answered with something else than null or the value of the invocable meant",
+            &format!("{:?} (for {:?}) {}", name, exact, input_text),
+            &expected,
+            &format!("null or {}", meant),
+          );
+          continue;
+        }
+      }
       rep.hit(&format!("call:{}:{}", invocables[invocable].kind, if expected == "null" { "null" } else if expected == "panic" { "panic" } else { "value" }));
-      calls.push(Call { invocable, input_text, input, expected });
+      calls.push(Call { invocable, name, input_text, input, expected });
     }
     if mi == 0 {
       for c in calls.iter().take(6) {
@@ -586,7 +984,6 @@ pub fn run(cfg: &Cfg) -> Report {
       for (ti, seq) in plan.iter().enumerate() {
         let me = Arc::clone(&me);
         let calls = Arc::clone(&calls);
-        let names: Vec<String> = invocables.iter().map(|i| i.name.clone()).collect();
         let seq = seq.clone();
         let tx = tx.clone();
         let barrier = Arc::clone(&barrier);
@@ -614,7 +1011,7 @@ pub fn run(cfg: &Cfg) -> Report {
             let call = &calls[c];
             // every thread evaluates with its own copy of the input
             let input = call.input.clone();
-            let r = match guarded(|| canon(&me.evaluate_invocable(&names[call.invocable], &input))) {
+            let r = match guarded(|| canon(&me.evaluate_invocable(&call.name, &input))) {
               Ok(v) => v,
               Err(_) => "panic".to_string(),
             };
@@ -758,7 +1155,7 @@ pub fn run(cfg: &Cfg) -> Report {
     }
     // lock poisoning: the evaluator still answers every call as before
     for call in calls.iter() {
-      let r = match guarded(|| canon(&me.evaluate_invocable(&invocables[call.invocable].name, &call.input))) {
+      let r = match guarded(|| canon(&me.evaluate_invocable(&call.name, &call.input))) {
         Ok(v) => v,
         Err(_) => "panic".to_string(),
       };
